@@ -162,6 +162,7 @@ type ReplayVector struct {
 	Known    []string         `json:"known_active,omitempty"`
 	Native   string           `json:"native_output,omitempty"`
 	Outcome  string           `json:"native_outcome,omitempty"`
+	Attempts int              `json:"native_attempts,omitempty"`
 }
 
 // classify replays each violation natively and emits VIOLATION / KNOWN-FINDING lines.
@@ -237,6 +238,13 @@ func (r *Report) classify(P *Program, hs HarnessSpec, ex *Explorer, hr *HarnessR
 			continue
 		}
 		outcome, out := nativeReplay(vd, repo, hs, path)
+		// a counterexample that depends on an interleaving inside the library cannot be forced natively
+		// (the replay drives the harness script, not the Go scheduler): the native run is repeated, each
+		// in a fresh process, until the failure shows or the attempts are used up
+		for attempt := 1; hs.Sched && outcome == "pass" && attempt < nativeSchedAttempts; attempt++ {
+			outcome, out = nativeReplay(vd, repo, hs, path)
+			rv.Attempts = attempt + 1
+		}
 		rv.Outcome, rv.Native = outcome, tail(out, 1500)
 		data, _ = json.MarshalIndent(rv, "", " ")
 		os.WriteFile(path, data, 0o644)
@@ -250,7 +258,7 @@ func (r *Report) classify(P *Program, hs HarnessSpec, ex *Explorer, hr *HarnessR
 		default:
 			tag := "ENCODING-MISMATCH"
 			if hs.Sched {
-				tag = "NOT-REPRODUCED (the counterexample needs a particular interleaving inside the library, which the native replay cannot force)"
+				tag = fmt.Sprintf("NOT-REPRODUCED in %d native runs (the counterexample needs a particular interleaving inside the library, which the native replay cannot force)", nativeSchedAttempts)
 			}
 			r.Inconclusive = append(r.Inconclusive, fmt.Sprintf("%s: %s: counterexample for %q did not reproduce natively (%s): %s", hs.Name, tag, v.Label, outcome, path))
 			if exit == 0 {
@@ -332,6 +340,9 @@ func tail(s string, n int) string {
 	}
 	return s
 }
+
+// nativeSchedAttempts: native runs tried for a schedule-dependent counterexample before giving up
+const nativeSchedAttempts = 25
 
 // nativeReplay runs the harness natively on the vector with `go test -overlay`.
 // outcome: "fail" (assertion or panic reproduced), "pass", "diverged", "builderror".
